@@ -248,6 +248,25 @@ Proof. exact raw_mode_example_proof. Qed.
 
 
 
+(** the SEND clause for lines: sendLine writes the line followed by the delimiter, nothing else ... *)
+Theorem sendline_wire_form : forall delim l, send_line delim l = l ++ delim.
+Proof. exact sendline_wire_form_proof. Qed.
+Print Assumptions sendline_wire_form.
+
+(** ... and a receiver of the same class (LineReceiver or LineOnlyReceiver), however the bytes are cut, gets back exactly that
+    line -- for EVERY line that does not contain the delimiter: trailing CR, LF, LF CR or any proper prefix of the delimiter included *)
+Theorem line_sent_is_received : forall max delim l cs, delim <> [] -> clean delim l -> length l <= max ->
+  chunks cs (send_line delim l) ->
+  run (lr_feed max delim) init cs = ([Line l], Some (tt, [])) /\ run (lo_feed max delim) init cs = ([Line l], Some (tt, [])).
+Proof. exact line_sent_is_received_proof. Qed.
+Print Assumptions line_sent_is_received.
+
+Example sendline_example :
+  clean [13; 10]%N [97; 98; 99; 13]%N /\ clean [13; 10]%N [10]%N /\ clean [13; 10]%N [120; 10; 13]%N /\
+  run (lr_feed 16 [13; 10]%N) init [send_line [13; 10]%N [97; 98; 99; 13]%N ++ send_line [13; 10]%N [10]%N; send_line [13; 10]%N [120; 10; 13]%N]
+  = ([Line [97; 98; 99; 13]; Line [10]; Line [120; 10; 13]]%N, Some (tt, [])).
+Proof. repeat split. Qed.
+
 (** the hypotheses are inhabited by non-trivial data *)
 Example lines_example :
   Forall (fun l => clean [13; 10]%N l /\ length l <= 3) [[97; 13]; []; [10; 98; 99]]%N /\
